@@ -381,6 +381,7 @@ pub fn run_check(prop: &dyn Property, tier: &str, seed: u64, verif: &Path) -> Ch
             "faults_fired": agg.faults,
             "probes": agg.probes,
             "decision_indices_enumerated": agg.enumerated,
+            "enumeration_complete_over_crash_indices_of_each_sampled_schedule": prop.id() == "C05",
             "executor_steps": agg.steps,
             "scheduling_decisions": agg.decisions,
             "sim_time_ticks": agg.sim_ticks,
